@@ -227,3 +227,39 @@ func VerifC07_SingleDashRawBytes() {
 	sameOutcome(x, y, remX, remY, errX, errY)
 	vReach("compared")
 }
+
+// SingleDash with option letters of three and four bytes (and the replacement
+// character itself as a declared letter): `-xREST` equals `--x=REST`.
+func VerifC07_SingleDashWideLetters() {
+	letter := []string{"世", "\uFFFD", "😀"}[vInt("letter", 0, 2)]
+	rest := []string{"", "v", "=v", "世v", "\xffv"}[vInt("rest", 0, 4)]
+	define := func() (*GetOpt, *string) {
+		opt := New()
+		opt.SetMode(SingleDash)
+		p := opt.String(letter, "d")
+		opt.Bool("b", false)
+		return opt, p
+	}
+	x, px := define()
+	y, py := define()
+	vPhase("run")
+	var remX, remY []string
+	var errX, errY error
+	if rest == "" {
+		remX, errX = x.Parse([]string{"-" + letter, "w"})
+		remY, errY = y.Parse([]string{"--" + letter, "w"})
+	} else {
+		remX, errX = x.Parse([]string{"-" + letter + rest})
+		remY, errY = y.Parse([]string{"--" + letter + "=" + rest})
+	}
+	vObserve("errX", errX)
+	vObserve("x", *px)
+	vAssert("wide/same-error-ness", (errX == nil) == (errY == nil))
+	vAssert("wide/same-value", *px == *py)
+	vAssert("wide/same-remaining", eqStrs(remX, remY))
+	vAssert("wide/same-called", x.Called(letter) == y.Called(letter))
+	if rest != "" {
+		vAssert("wide/value-is-the-rest", errX == nil && *px == rest)
+	}
+	vReach("compared")
+}
